@@ -325,13 +325,27 @@ def c01(tier, rng, rep, only=None):
 
 def c07(tier, rng, rep, only=None):
     decls = only if only is not None else (guardcorpus.build_corpus(rng, tier) + corpus.gen_perm_decls(rng.fork("perm"), tier))
+
+    def ops_for(g, d, r):
+        # the reported variant must be the same whichever guarded entry point carries the input
+        info = runner.DeclInfo(d)
+        ops = []
+        for k_, v in enumerate(guardcorpus.inputs_for(d, r, tier)):
+            a = val_sexp(v)
+            ops.append((guardcorpus.ctor_op(d), a))
+            if info.has_validation and k_ % 2 == 0:
+                if "TryFrom" in info.traits:
+                    ops.append(("try_from", a))
+                if "FromStr" in info.traits and d.inner == "String":
+                    ops.append(("from_str_s", a))
+        g.add_ops(d, ops, spec=True)
     if only is None:
         # the perm declarations live in their own workspace so that the shared guard build is reused
-        g1 = make_guard_run(tier, rng, decls=[d for d in decls if "perm" not in d.tags])
-        g2 = make_guard_run(tier, rng, decls=[d for d in decls if "perm" in d.tags], wsname="perm")
+        g1 = make_guard_run(tier, rng, decls=[d for d in decls if "perm" not in d.tags], ops_for=ops_for)
+        g2 = make_guard_run(tier, rng, decls=[d for d in decls if "perm" in d.tags], wsname="perm", ops_for=ops_for)
         runs = [g1, g2]
     else:
-        runs = [make_guard_run(tier, rng, decls=decls, wsname="replay")]
+        runs = [make_guard_run(tier, rng, decls=decls, wsname="replay", ops_for=ops_for)]
     n_cases = n_err = n_multi = 0
     per_variant = {}
     for g in runs:
@@ -893,7 +907,7 @@ def c13(tier, rng, rep, only=None):
                     rep.violation("%s does not expose the stored inner value for input %s of %s" % (k, c.arg, c.decl.id), case_payload(c, g))
         else:
             npairs += 1
-            for a, b_ in (("eq", "ieq"), ("pcmp", "ipcmp"), ("cmp", "icmp")):
+            for a, b_ in (("eq", "ieq"), ("ne", "ine"), ("self", "iself"), ("pcmp", "ipcmp"), ("ops", "iops"), ("cmp", "icmp"), ("mm", "imm")):
                 if a in kv:
                     fields[a] = fields.get(a, 0) + 1
                     if kv[a] != kv[b_]:
@@ -1359,10 +1373,60 @@ def verdict_run(wsname, decls, features, rep, rng):
     return g, dropped
 
 
+# what the macro itself says when it refuses a declaration for the model's reason (substring of its message)
+REASON_TEXT = {
+    "gen:arbitrary_any_validation": "Cannot derive trait `Arbitrary` for a custom type",
+    "gen:arbitrary_custom": ("derive `Arbitrary` trait for a type with custom", "Cannot derive trait `Arbitrary` for a type with custom"),
+    "gen:arbitrary_predicate": "`predicate` validator",
+    "gen:arbitrary_regex": "`regex` validator",
+    "gen:arbitrary_with_sanitizer": "`with` sanitizer",
+    "gen:default_missing": "`default = ` parameter is missing",
+    "meta:derive_attribute": "#[derive(..)] macro is not allowed",
+    "meta:empty_tuple_struct": "empty tuple struct",
+    "meta:field_visibility": "visibility for the inner field is forbidden",
+    "meta:not_tuple_struct": "only with tuple structs",
+    "meta:unsupported_attribute": "does not support this attribute",
+    "parse:arbitrary_feature": "feature `arbitrary`",
+    "parse:duplicate_block": "Duplicate attribute",
+    "parse:duplicate_error": "Duplicate `error`",
+    "parse:duplicate_with": "Duplicate `with`",
+    "parse:error_without_with": "`error` attribute requires an accompanying `with`",
+    "parse:missing_parenthesis": "must be used with parenthesis",
+    "parse:new_unchecked_feature": "feature `new_unchecked`",
+    "parse:no_validators": "At least one validator",
+    "parse:regex_feature": "feature `regex`",
+    "parse:schemars_feature": "feature `schemars08`",
+    "parse:serde_feature": "feature `serde`",
+    "parse:unknown_attribute": "Unknown attribute",
+    "parse:unknown_sanitizer": "Unknown sanitizer",
+    "parse:unknown_trait": "does not know how to derive",
+    "parse:unknown_validator": ("Unknown validation attribute", "Unknown validator", "expected `,`"),
+    "parse:with_error_mixed": "cannot be used mixed with other validators",
+    "parse:with_without_error": "`with` attribute requires an accompanying `error`",
+    "traits:copy_string": "Copy trait cannot be derived",
+    "traits:eq_requires_partial_eq": "Eq requires PartialEq",
+    "traits:float_hash": "cannot derive `Hash` trait for float",
+    "traits:float_needs_finite": "proves that inner value is not NaN",
+    "traits:from_and_try_from": "no need to derive `TryFrom`",
+    "traits:from_with_validation": "cannot derive `From` trait, because there is validation",
+    "traits:into_iterator": "cannot derive `IntoIterator`",
+    "traits:ord_requires": "Trait Ord requires",
+    "validate:bounds_exclude": "The lower bound",
+    "validate:duplicate_sanitizer": "Duplicated sanitizer",
+    "validate:duplicate_validator": "Duplicated validator",
+    "validate:greater_and_greater_or_equal": "EITHER `greater` OR `greater_or_equal`",
+    "validate:invalid_regex": "regex parse error",
+    "validate:len_char_min_gt_max": "`len_char_min` cannot be greater than `len_char_max`",
+    "validate:less_and_less_or_equal": "EITHER `less` OR `less_or_equal`",
+    "validate:lowercase_and_uppercase": "`lowercase` and `uppercase`",
+}
+
+
 def c08(tier, rng, rep, only=None):
     import verdicts
     n = 0
     classes = {}
+    reasons = {}
     runs = []
     if only is not None:
         runs.append(("replay", only, runner.FEATURES_ALL))
@@ -1392,6 +1456,18 @@ def c08(tier, rng, rep, only=None):
                 else:
                     rep.violation("model and rustc disagree on %s: model %s, rustc %s" % (d.id, mv, payload["rustc"][0][:160]), payload, no_input=True)
                 continue
+            if impl_rej and m_rej and cls in REASON_TEXT:
+                msgs = dropped[d.id]
+                reasons[cls] = reasons.get(cls, 0) + 1
+                want = REASON_TEXT[cls] if isinstance(REASON_TEXT[cls], tuple) else (REASON_TEXT[cls],)
+                if not any(w_ in m_ for m_ in msgs for w_ in want):
+                    if all(getattr(m_, "code", None) for m_ in msgs):
+                        # nothing came from the macro: it accepted the declaration, only rustc trips over the expansion
+                        rep.violation("declaration %s must be refused by the macro (%s) but is expanded; only rustc rejects the expansion: %s"
+                                      % (d.id, cls, msgs[0][:160]), payload)
+                    else:
+                        rep.violation("declaration %s is refused, but not with the diagnostic of the rule %s: %s" % (d.id, cls, msgs[0][:160]),
+                                      payload, no_input=True)
             if impl_rej and ref == "1":
                 k = KNOWN_REJECT.get(cls)
                 if k:
@@ -1440,7 +1516,7 @@ def c08(tier, rng, rep, only=None):
             rep.violation("self-check: generated tests were not run (%d)" % n_tests, {"kind": "coverage"}, no_input=True)
     rep.coverage.update({"evaluations": n, "distinct_nontrivial": sum(v for k_, v in classes.items() if k_ != "accept"),
                          "rule": "declarations generated from the attribute grammar: every refusal class of the macro and its near misses (struct shape, attributes, field visibility, unknown / wrong-family / wrong-case names, duplicates, literal bounds in every relative position incl. equal and adjacent, expressions hiding the same contradictions, with/error pairing, the full family x trait x validation matrix with derive dependencies, Arbitrary restrictions, regex literals, const_fn, generics and short type-parameter names) under all features and under std only; three verdicts per declaration: rustc on the real expansion (errors attributed by span), the model's front end, the reference rule book",
-                         "verdict_classes": classes, "exhaustive": False})
+                         "verdict_classes": classes, "refusals_with_the_rule_book_diagnostic": reasons, "exhaustive": False})
     rep.samples.append({"classes": dict(list(classes.items())[:8])})
     if only is None and classes.get("accept", 0) < 50:
         rep.violation("self-check: too few accepted declarations", {"kind": "coverage"}, no_input=True)
@@ -1853,6 +1929,32 @@ PROPS = {
 }
 
 
+ZOO_PROPS = ("C01", "C03", "C04", "C06", "C10", "C11", "C13")
+
+
+def zoo_part(rep, pid):
+    """inner types outside the modelled families (harness/zoo): in-process comparison with the
+    inner value or a hand-written reference; the lines of this property only"""
+    ok, res = flows.run_zoo()
+    if not ok:
+        rep.violation("the declarations over other inner types (harness/zoo) no longer build or run: %s" % res[-300:],
+                      {"kind": "zoo-build", "stderr": res}, no_input=True)
+        return
+    mine = res.get(pid, [])
+    bad = [m for m in mine if not m[2]]
+    rep.coverage["other_inner_types"] = {"checks": len(mine), "failed": len(bad),
+                                         "types": sorted({m[0] for m in mine}),
+                                         "rule": "Vec<f64>, Option<f32>, Cow<str>, &str, a type parameter as inner type (at f64 / String), (i32, String), [u8; 4]: constructor vs a hand-written sanitize-then-validate reference, conversions vs the constructor, views / comparisons / hash vs the inner value, all inside one process"}
+    seen = set()
+    for ty, check, _, detail in bad:
+        if (ty, check) in seen:
+            continue
+        seen.add((ty, check))
+        rep.violation("%s of %s (inner type outside the modelled families) disagrees with the inner value / reference: %s" % (check, ty, detail),
+                      {"kind": "zoo", "type": ty, "check": check, "detail": detail,
+                       "reproduce": "cd harness/zoo && cargo run --offline | grep FAIL"})
+
+
 def run_property(pid, tier, replay=None):
     if pid not in PROPS:
         print("unknown or unclaimed property", pid)
@@ -1868,4 +1970,6 @@ def run_property(pid, tier, replay=None):
         if "decl" in j:
             only = [Decl.from_json(j["decl"])]
     fn(tier, rng, rep, only)
+    if only is None and pid in ZOO_PROPS:
+        zoo_part(rep, pid)
     return finish(rep, assumptions)
